@@ -427,7 +427,8 @@ func invoke(input OmegaInput) (output OmegaOutput) {
 	tmp := input.Addition.IntegratedPVMMap[n]
 	tmp.Memory = *tempHost.Interpreter.Memory
 	if c.GetReasonType() == HOST_CALL {
-		tmp.PC = pcPrime + 1 + ProgramCounter(skip(int(pcPrime), input.Addition.Program.Bitmasks))
+		// resume after the ecalli: its length comes from the inner program's bitmask, not the outer one's
+		tmp.PC = pcPrime + 1 + ProgramCounter(skip(int(pcPrime), innerProgram.Bitmasks))
 	} else {
 		tmp.PC = pcPrime
 	}
